@@ -204,7 +204,16 @@ impl Context {
         let state = self.states.pop().expect("States underflow");
         let removed_from_rc = self.decrease_ref_count(state.memory_block_index);
         if removed_from_rc {
-            self.memory_blocks.remove(state.memory_block_index);
+            // Memory blocks are addressed by index (by the states and by the static
+            // memory block map), so a block can only be dropped from the end.
+            // A released block that has a (static) block after it is emptied and
+            // dropped later, once it becomes the last one.
+            let memory_block = &mut self.memory_blocks[state.memory_block_index];
+            memory_block.released = true;
+            memory_block.variables = Variables::new();
+            while self.memory_blocks.last().is_some_and(|b| b.released) {
+                self.memory_blocks.pop();
+            }
         }
         state
     }
@@ -467,6 +476,10 @@ pub struct MemoryBlock {
     /// means it should not be discarded even if the reference counter would
     /// normally indicate so.
     is_static: bool,
+
+    /// Indicates that this memory block is no longer in use and waits to be
+    /// dropped as soon as it is the last block.
+    released: bool,
 }
 
 impl MemoryBlock {
@@ -475,6 +488,7 @@ impl MemoryBlock {
             variables,
             ref_count: 1,
             is_static,
+            released: false,
         }
     }
 
